@@ -189,15 +189,19 @@ impl std::fmt::Display for ExecutedState {
             Fold(FoldResult { lore }) => {
                 writeln!(f, "fold(",)?;
                 for sublore in lore {
-                    writeln!(
-                        f,
-                        "          {} - [{}, {}], [{}, {}]",
-                        sublore.value_pos,
-                        sublore.subtraces_desc[0].begin_pos,
-                        sublore.subtraces_desc[0].subtrace_len,
-                        sublore.subtraces_desc[1].begin_pos,
-                        sublore.subtraces_desc[1].subtrace_len
-                    )?;
+                    // a lore from untrusted data could have any number of descriptors
+                    match sublore.subtraces_desc.as_slice() {
+                        [before, after] => writeln!(
+                            f,
+                            "          {} - [{}, {}], [{}, {}]",
+                            sublore.value_pos,
+                            before.begin_pos,
+                            before.subtrace_len,
+                            after.begin_pos,
+                            after.subtrace_len
+                        )?,
+                        descs => writeln!(f, "          {} - {:?}", sublore.value_pos, descs)?,
+                    }
                 }
                 write!(f, "     )")
             }
